@@ -81,6 +81,10 @@ pub fn run(args: &Args) {
                 _ => r.below(frame_len as u64 - 14) as usize,
             }).collect();
             times.sort();
+            // the host may apply its AY option again at any frame boundary (the value it already has): nothing audible changes
+            if r.chance(1, 5) {
+                emu.set_ay_enabled(ay);
+            }
             let mut writes = vec![];
             // now and then the frame begins with a snapshot being loaded (SZX: it carries the last value written to port
             // 0xFE, so the speaker and MIC levels are part of the state it restores)
